@@ -393,7 +393,9 @@ func httpCase(body []byte) {
 		name string
 		data []byte
 	}
-	encs := []enc{{"-", body}, {"identity", body}, {"", body}, {"deflate", z.Bytes()}, {"deflate", body}, {"lz4", l.Bytes()}, {"lz4", body}, {"gzip", body}, {strings.Repeat("x", 70), body}}
+	encs := []enc{{"-", body}, {"identity", body}, {"", body}, {"deflate", z.Bytes()}, {"deflate", body}, {"lz4", l.Bytes()}, {"lz4", body}, {"gzip", body}, {strings.Repeat("x", 70), body},
+		// unknown encodings around the length at which the handler shortens them for its log line
+		{strings.Repeat("y", 63), body}, {strings.Repeat("y", 64), body}, {strings.Repeat("y", 65), body}}
 	for _, path := range []string{"/v2/raw", "/v2/event"} {
 		for _, e := range encs {
 			res.Evaluations++
